@@ -281,11 +281,16 @@ type tstate struct {
 	sentC     int
 	killAt    int
 	openLate  bool
+	// observations about the newCounter call in progress (implementation side only)
+	callMaps     int  // mappings created by the call (re-maps and extensions)
+	callReserved bool // the call's CAS on the limit word moved the limit (it has reserved a record)
+	nres         int  // results logged
 }
 
 type mapping struct{ base, n uintptr }
 
 var maps []mapping
+var curT *tstate // the process whose step is running
 
 func fileOff(addr uintptr) (uint32, bool) {
 	for _, m := range maps {
@@ -476,10 +481,20 @@ func emptyScen() scen {
 // bucket; P1, on a one-page mapping, looks up a name of that bucket; each
 // time P1 has re-mapped, P0 links a record beyond P1's new mapping before P1
 // reads the bucket head again.  After the tenth remap newCounter gives up.
-func witnessTries() scen {
-	sc := scen{kind: "witness-tries", meta: metaOfLen(60), pl: base.clone(), swCas: 0, stay: 100}
+func witnessTries() scen { return witnessRemap("witness-tries", 48) }
+
+// remap-twice: the same race, but the extending process stops after the file has grown twice under the
+// other's feet: the looking-up process must re-map twice and then succeed
+func remapTwice() scen {
+	sc := witnessRemap("remap-twice", 9)
+	sc.progs[1] = append(sc.progs[1], op{k: 3})
+	return sc
+}
+
+func witnessRemap(kind string, nlong int) scen {
+	sc := scen{kind: kind, meta: metaOfLen(60), pl: base.clone(), swCas: 0, stay: 100}
 	var p0 []op
-	for k := 0; k < 48; k++ {
+	for k := 0; k < nlong; k++ {
 		p0 = append(p0, op{isNew: true, name: sc.pl.add(findName("WT"+strconv.Itoa(k)+"-", 4080, int(hotBucket), nil))})
 	}
 	sc.progs = [][]op{p0, {{isNew: true, name: idHot1}}}
@@ -729,12 +744,15 @@ func runScen(sc scen) {
 	nevents := 0
 	emit := func(f ...string) { events = append(events, f...); nevents++ }
 
+	curLimit := uint32(0)
 	observe := func() view {
 		d, err := os.ReadFile(path)
 		if err != nil {
 			panic(err)
 		}
-		return decode(d, H, sc.pl)
+		v := decode(d, H, sc.pl)
+		curLimit = v.limit
+		return v
 	}
 	lastObs := ""
 	obsTokens := func() []string {
@@ -765,6 +783,7 @@ func runScen(sc scen) {
 			for _, o := range prog {
 				if o.isNew {
 					st.cell = nil
+					st.callMaps, st.callReserved = 0, false
 					cell, m1, err := st.h.NewCounter(sc.pl.names[o.name])
 					cls := counter.VerifErrClass(err)
 					if err == nil {
@@ -774,10 +793,12 @@ func runScen(sc scen) {
 						}
 						off := uint64(uintptr(unsafe.Pointer(cell)) - hh.Base())
 						st.results = append(st.results, "cell", U(off))
+						st.nres++
 						st.cell = cell
 						st.cellName = o.name
 					} else {
-						st.results = append(st.results, "err", cls)
+						st.results = append(st.results, "err", cls, I(int64(st.callMaps)), B(st.callReserved))
+						st.nres++
 					}
 					if m1 != nil {
 						old := st.h
@@ -900,7 +921,10 @@ func runScen(sc scen) {
 			continue
 		}
 		pre := s.Last(tids[i])
+		limBefore := curLimit
+		curT = ts[i]
 		info := s.Step(tids[i])
+		curT = nil
 		own[i]++
 		gstep++
 		if info.Panic != "" {
@@ -908,6 +932,9 @@ func runScen(sc scen) {
 		}
 		off, inFile := fileOff(pre.Addr)
 		ot := obsTokens()
+		if inFile && pre.Label == "cas32" && off == H && curLimit != limBefore {
+			ts[i].callReserved = true
+		}
 		if !inFile && ot[0] == "=" {
 			// a yield point outside the file (sync.Once in mappedFile.close): no file effect
 			if debug {
@@ -991,7 +1018,7 @@ func runScen(sc scen) {
 		if ts[i].h != nil {
 			ml = int64(ts[i].h.Len())
 		}
-		fields = append(fields, B(killed), B(done), I(ml), I(int64(len(ts[i].results)/2)))
+		fields = append(fields, B(killed), B(done), I(ml), I(int64(ts[i].nres)))
 		fields = append(fields, ts[i].results...)
 	}
 	out.Case(true, fields...)
@@ -1018,12 +1045,18 @@ func main() {
 	}
 	defer os.RemoveAll(root)
 	counter.VerifConcInit()
-	counter.VerifMemmapHook(func(base uintptr, n int) { maps = append(maps, mapping{base, uintptr(n)}) })
+	counter.VerifMemmapHook(func(base uintptr, n int) {
+		maps = append(maps, mapping{base, uintptr(n)})
+		if curT != nil {
+			curT.callMaps++
+		}
+	})
 	buildPool()
 	buildExhaustive()
 	thorough := os.Getenv("VERIF_TIER") == "thorough" || n >= 3000
 	runScen(witness4())
 	runScen(witnessTries())
+	runScen(remapTwice())
 	runScen(emptyScen())
 	runScen(dmgLimitScen())
 	runScen(dmgCycleScen())
@@ -1047,7 +1080,7 @@ func main() {
 		}
 		runScen(exhScen(exh.plans[(k*stride+off)%len(exh.plans)]))
 	}
-	for i := 6 + nexh; i < n; i++ {
+	for i := 7 + nexh; i < n; i++ {
 		runScen(randomScen())
 	}
 	out.Close()
